@@ -55,6 +55,8 @@ from ..refs.macroast import num, S, lit, Illegal, Undefined
 PROPERTY = 'C17'
 NEEDS_C = False
 STOP_AFTER = 150       # violations per section per shard after which that section stops enumerating
+REQUIRED_GUARDS = ('expr_exact', 'expr_truth_only', 'expr_undefined', 'expr_bare_precedence', 'expr_negative', 'macro_depth1', 'macro_depth2', 'macro_depth3',
+                   'macro_hash', 'config_variants', 'hist_merged_targets_probed', 'probe_expansions', 'tool_runs', 'tool_positions_compared', 'style_illegal')
 
 # ------------------------------------------------------------------------------ fixtures
 SKOOL = """@start
@@ -144,6 +146,15 @@ def _clear_caches():
             val.clear()
 
 
+class SetupViolation(Exception):
+    """One of the macros that build the fixed environment of (i)/(ii) did not expand as documented."""
+
+    def __init__(self, text, detail):
+        Exception.__init__(self, detail)
+        self.text = text
+        self.detail = detail
+
+
 class Writers:
     """Real AsmWriter / HtmlWriter objects on the two-entry skool file."""
     _path = None
@@ -179,7 +190,7 @@ class Writers:
             t = M.render(node, None, self.state.macros)
             ra, rh = self.expand(t)
             if ra != '' or rh != '':
-                raise RuntimeError('setup macro {} expanded to {!r} / {!r}'.format(t, ra, rh))
+                raise SetupViolation(t, 'environment macro {} expanded to {!r} (ASM) / {!r} (HTML), documented: empty string'.format(t, ra, rh))
             M.Evaluator(self.state, M.Mode()).text(node)
         self.defs = dict(self.state.macros)
 
@@ -957,6 +968,19 @@ def _cases(tier, seed, env_state):
 def _shard(shard, nshards, tier, seed):
     stats = core.Stats(PROPERTY)
     cfg = CONFIGS[seed % len(CONFIGS)]
+    try:
+        return _run_shard(stats, shard, nshards, tier, seed, cfg)
+    except SetupViolation as e:
+        # nothing else can be trusted once the environment itself is wrong: report and stop
+        stats.violation('setup/' + e.text, {'section': 'setup', 'cfg': cfg}, e.detail,
+                        tags={'section': 'setup', 'kind': 'setup', 'text': e.text, 'feat': ''}, order=-1)
+        stats.caps.append('shard stopped: environment macros do not expand as documented')
+        for g in REQUIRED_GUARDS:
+            stats.counters[g] += 1          # not a vacuous pass: the run ends with a violation
+        return stats
+
+
+def _run_shard(stats, shard, nshards, tier, seed, cfg):
     W = {}
 
     def writers(c):
@@ -1093,8 +1117,7 @@ def run(tier, seed):
             'e.g. ";" collides with &lt; in HTML mode); braces are not used to delimit a #LET dictionary value (the value undergoes replacement-field substitution)',
             'HTML expansions are compared after html.unescape; the documented raw forms of #CHR/#SPACE (&#N; / &#160;) are compared exactly when the text has no other HTML-special character',
         ],
-        required_guards=['expr_exact', 'expr_truth_only', 'expr_undefined', 'expr_bare_precedence', 'expr_negative', 'macro_depth1', 'macro_depth2', 'macro_depth3',
-                         'macro_hash', 'config_variants', 'hist_merged_targets_probed', 'probe_expansions', 'tool_runs', 'tool_positions_compared', 'style_illegal'],
+        required_guards=list(REQUIRED_GUARDS),
         extra={'max_depth': b['hist'], 'state_changing_macros': list(OP_NAMES)},
     )
     return stats, meta
@@ -1105,6 +1128,12 @@ def replay(case):
     cfg = tuple(case['cfg'])
     sec = case['section']
     stats = core.Stats()
+    if sec == 'setup':
+        try:
+            Writers(cfg)
+        except SetupViolation as e:
+            return [e.detail]
+        return []
     if sec == 'expr':
         w = Writers(cfg)
         return [d for _, _, d in check_expr(w, M.tuplify(case['ast']), stats)]
